@@ -368,7 +368,8 @@ class Simulation(object):
                 expected = int(expected)
                 actual = self.inspect(expvar)
                 if expected != actual:
-                    failed.append((i, expvar, expected, actual))
+                    name = expvar.name if isinstance(expvar, WireVector) else expvar
+                    failed.append((i, name, expected, actual))
 
             if failed and stop_after_first_error:
                 break
@@ -764,7 +765,8 @@ class FastSimulation(object):
                 expected = int(expected)
                 actual = self.inspect(expvar)
                 if expected != actual:
-                    failed.append((i, expvar, expected, actual))
+                    name = expvar.name if isinstance(expvar, WireVector) else expvar
+                    failed.append((i, name, expected, actual))
 
             if failed and stop_after_first_error:
                 break
